@@ -709,8 +709,8 @@ def knot_removal(degree, knotvector, ctrlpts, u, **kwargs):
             i = first
             j = last
             while j - i > t:
-                ctrlpts_new[i] = temp[i - first + 1]
-                ctrlpts_new[j] = temp[j - first + 1]
+                ctrlpts_new[i] = deepcopy(temp[i - first + 1])
+                ctrlpts_new[j] = deepcopy(temp[j - first + 1])
                 i += 1
                 j -= 1
 
